@@ -98,6 +98,29 @@ Verdict judge_c11(const Plan &plan, const sim::Shm *shm, const ChildExit &, cons
             fatal_cid = (int)e.a;
         }
     }
+    {
+        // probe sink: send() and flush() intervals of different threads must never overlap
+        int owner = -1, depth = 0, flushes = 0;
+        for (uint32_t i = 0; i < N; i++) {
+            const sim::Event &e = shm->events[i];
+            bool in = e.kind == E_PROBE_IN || e.kind == E_FLUSH_IN;
+            bool out = e.kind == E_PROBE_OUT || e.kind == E_FLUSH_OUT;
+            if (e.kind == E_FLUSH_IN)
+                flushes++;
+            if (in) {
+                if (depth > 0 && owner != e.tid)
+                    fail11(v, "overlap",
+                           std::string(e.kind == E_FLUSH_IN ? "flush()" : "send()") + " of a sink entered by thread T"
+                                   + std::to_string(e.tid) + " while thread T" + std::to_string(owner)
+                                   + " was inside a sink (the fatal message's flush is not covered by the logger's lock)");
+                owner = e.tid;
+                depth++;
+            } else if (out && depth > 0) {
+                depth--;
+            }
+        }
+        v.probes["sink_flushes_observed"] = flushes;
+    }
     bool died = shm->status == sim::ST_ABORT;
     if (fatal_invoke >= 0 && !died) {
         fail11(v, "fatal-did-not-abort", "a fatal message was logged but the process did not abort");
@@ -251,7 +274,7 @@ Verdict judge_c11(const Plan &plan, const sim::Shm *shm, const ChildExit &, cons
     v.probes["records_above_16k"] = big;
     v.probes["files"] = total_files;
     v.probes["died_by_abort"] = died ? 1 : 0;
-    v.probes["fatal_from_nonmain"] = (fatal_cid >= 0 && (fatal_cid >> 12) != 0) ? 1 : 0;
+    v.probes["fatal_from_nonmain"] = (fatal_cid >= 0 && (fatal_cid >> 16) != 0) ? 1 : 0;
     return v;
 }
 
